@@ -86,8 +86,7 @@ SPEC = {
     'obligations': [
         {'name': 'serial.pairs', 'fn': '_ob_pair', 'parts': 24, 'cond_timeout': 900, 'path_timeout': 60,
          'bound': 'every ordered pair of the %d corpus calls (%d schedules)' % (NC, NC * NC)},
-    ] + ([
-        {'name': 'serial.triples', 'fn': '_ob_triple', 'parts': 96, 'cond_timeout': 3000, 'path_timeout': 60,
+        {'name': 'serial.triples', 'fn': '_ob_triple', 'parts': 48, 'cond_timeout': 3000, 'path_timeout': 60,
          'bound': 'every ordered triple of the %d corpus calls (%d schedules)' % (NC, NC ** 3)},
-    ] if THOROUGH else []),
+    ],
 }
